@@ -17,6 +17,7 @@ import (
 
 	"github.com/sirupsen/logrus"
 
+	"hop.computer/hop/keys"
 	"hop.computer/hop/transport"
 	"verif/harness/hopkit"
 	"verif/harness/rec"
@@ -198,5 +199,97 @@ func main() {
 		}
 		w.Ev("longrun", "sent", N, "delivered", delivered, "replays", tried, "redelivered", redelivered, "moved", moved, "hidden", yn(hidden))
 		p.W.Close()
+	}
+	if !longOnly {
+		lateHandshakeCopies(w, pki, sid, cid)
+	}
+}
+
+// lateHandshakeCopies: the network delivers copies of the session's OWN handshake datagrams once more after the
+// handshake has finished (same source address), the server's handshake timeout passes, and then both ends write.
+// Whatever the server does with the copies (answer, open a short-lived handshake, let it time out), the
+// established session must go on delivering what is written.
+func lateHandshakeCopies(w *rec.W, pki *hopkit.PKI, sid, cid *hopkit.Ident) {
+	const tmo = 700 * time.Millisecond
+	for _, hidden := range []bool{false, true} {
+		for _, which := range []string{"all", "ack", "last"} {
+			wd := hopkit.NewWorld()
+			sa, ca := simwire.Addr("10.0.0.1", 77), simwire.Addr("10.0.1.1", 1001)
+			var kem *keys.KEMKeyPair
+			if hidden {
+				kem = hopkit.NewKEM()
+			}
+			s := wd.NewServer(sa, hopkit.SrvOpt{Ident: sid, KEM: kem, Hidden: hidden, HSTimeout: tmo})
+			opt := hopkit.CliOpt{Ident: cid, Verify: pki.Policy("store", "a.example")}
+			if hidden {
+				opt.ServerKEM = &kem.Public
+			}
+			c := wd.NewClient(ca, sa, opt)
+			// the handshake in lock step, keeping the client's datagrams
+			var mine [][]byte
+			c.Start()
+			var herr error
+			for hop := 0; hop < 8; hop++ {
+				if herr = c.WaitStep(); herr != nil {
+					break
+				}
+				out := wd.Net.TakeFrom(c.EP)
+				for _, d := range out {
+					mine = append(mine, d.Data)
+					s.EP.Deliver(d.Data, d.From, hopkit.StepTimeout)
+				}
+				if done, err := c.Finished(); done {
+					herr = err
+					break
+				}
+				for _, d := range wd.Net.TakeFrom(s.EP) {
+					c.EP.Inject(d.Data, d.From)
+				}
+			}
+			h, aerr := s.T.AcceptTimeout(time.Second)
+			if herr != nil || aerr != nil {
+				w.Ev("latehs", "hidden", yn(hidden), "which", which, "copies", 0, "sent", 2, "delivered", -1, "note", fmt.Sprint(herr, aerr))
+				wd.Close()
+				continue
+			}
+			var copies [][]byte
+			switch which {
+			case "all":
+				copies = mine
+			case "ack":
+				if len(mine) >= 2 {
+					copies = mine[1:2]
+				} else {
+					copies = mine[:1]
+				}
+			case "last":
+				copies = mine[len(mine)-1:]
+			}
+			for _, d := range copies {
+				s.EP.Deliver(d, ca, hopkit.StepTimeout)
+				wd.Net.TakeFrom(s.EP) // whatever the server answers is lost
+			}
+			time.Sleep(tmo + 500*time.Millisecond)
+			delivered := 0
+			buf := make([]byte, 100)
+			c.T.WriteMsg([]byte("after-c"))
+			for _, d := range wd.Net.TakeFrom(c.EP) {
+				s.EP.Deliver(d.Data, d.From, hopkit.StepTimeout)
+			}
+			h.SetReadDeadline(time.Now().Add(300 * time.Millisecond))
+			if k, err := h.ReadMsg(buf); err == nil && string(buf[:k]) == "after-c" {
+				delivered++
+			}
+			h.WriteMsg([]byte("after-s"))
+			for _, d := range wd.Net.TakeFrom(s.EP) {
+				c.EP.Deliver(d.Data, d.From, hopkit.StepTimeout)
+			}
+			c.T.SetReadDeadline(time.Now().Add(300 * time.Millisecond))
+			if k, err := c.T.ReadMsg(buf); err == nil && string(buf[:k]) == "after-s" {
+				delivered++
+			}
+			w.Ev("latehs", "hidden", yn(hidden), "which", which, "copies", len(copies), "sent", 2, "delivered", delivered, "note", "")
+			wd.Close()
+		}
 	}
 }
